@@ -254,6 +254,27 @@ impl Prop for C03 {
          split over an include file. Non-trivial: >= 2 files contribute and >= 1 expansion or conditional (model counters); distinct by digest of all file texts."
             .into()
     }
+    fn witness(&self, _ctx: &Ctx, f: &crate::findings::Finding) -> Result<bool, Fail> {
+        // witness {"kind":"pp_origin","source":…,"needle":…,"expected_offset":n,"listed_offset":m}: the origin of the first
+        // occurrence of `needle` in the output, a byte copied from the (single) source file
+        if f.witness["kind"].as_str() != Some("pp_origin") {
+            return Ok(false);
+        }
+        let w = &f.witness;
+        let src = w["source"].as_str().unwrap_or("");
+        let needle = w["needle"].as_str().unwrap_or("");
+        let (ppt, _) = sv::pp(src, std::path::Path::new("top.sv"), &Default::default(), &[], false, false)
+            .map_err(|e| Fail::new(format!("witness of {} is rejected: {}", f.id, sv::err_kind(&e)), json!({})))?;
+        let pos = ppt.text().find(needle).ok_or_else(|| Fail::new(format!("witness of {}: {:?} not in the output", f.id, needle), json!({})))?;
+        let got = ppt.origin(pos).map(|(_, o)| o as u64);
+        if got == w["listed_offset"].as_u64() {
+            Ok(true)
+        } else if got == w["expected_offset"].as_u64() {
+            Ok(false)
+        } else {
+            Err(Fail::new(format!("witness of {}: origin offset {:?}", f.id, got), json!({})))
+        }
+    }
     fn assumptions(&self) -> Vec<String> {
         vec![
             "token-to-label alignment borrows the reference model's token sequence (cases whose tokens do not align, e.g. listed finding K6, are counted as skipped)".into(),
